@@ -1,14 +1,17 @@
 """E10: codec extractor. For every Serializable subclass: the writer's and the reader's field sequences as lists of
 primitives, tag-dispatch tables, constructor parameter -> attribute map, id-from-raw-bytes spans.
 
+Version 2: both sequences are read off the summariser's event tables (ordered stream operations, each stream read carrying
+an identity), so helper extraction, renamed locals, if/elif chains, comprehensions and `unpack(..)[0]` vs `(x,) = unpack(..)`
+do not matter. A decoder / encoder statement that is not understood is reported in `problems` (verdict UNKNOWN), never guessed.
+
 Primitives (tuples):
   ('raw', n, field)            n bytes verbatim (n None on the writer side: width is whatever the attribute holds)
   ('uint', width, order, field) fixed-width unsigned integer (struct B/H/I/Q or int.to_bytes/from_bytes)
   ('const', bytes)             constant bytes; reader side: strictly compared
-  ('lenient', n, name)         reader reads n bytes into a value that is never used / not compared
-  ('ignored', n)               reader discards n bytes
+  ('ignored', n)               reader consumes n bytes whose value is neither checked nor used
   ('vlq', field)               variable-length quantity holding an attribute
-  ('lp', width, field)         length prefix (width bytes, or 'vlq') followed by that many raw bytes of field
+  ('lp', width, field)         length prefix (width bytes) followed by that many raw bytes of field
   ('list', T, field)           vlq count + elements of class T (T None on the writer side)
   ('rawlist', n, field)        vlq count + n-byte raw elements
   ('nested', T, field)         nested object of class T (a dispatching base means tagged union)
@@ -18,10 +21,11 @@ Primitives (tuples):
 from __future__ import annotations
 
 import ast
-import struct
-from typing import Any, Dict, List, Optional, Tuple
+from typing import Any, Dict, List, Optional, Set, Tuple
 
-from .repo import AnalysisError, ClassInfo, FuncInfo, Module, Repo, dotted, func_body
+from .repo import AnalysisError, ClassInfo, FuncInfo, Repo, func_body
+from .terms import C, Term, conjuncts, is_int_const, lin_parts, mk_not, show, subterms, untag
+from .walker import Event, Summary, Walker
 
 SER = "skepticoin.serialization."
 Prim = Tuple[Any, ...]
@@ -59,8 +63,10 @@ class Codec:
         return self.cls.name
 
 
-def fmt_prim(fmt: bytes | str) -> Optional[Tuple[int, str]]:
+def fmt_prim(fmt: Any) -> Optional[Tuple[int, str]]:
     s = fmt.decode() if isinstance(fmt, bytes) else fmt
+    if not isinstance(s, str):
+        return None
     order = "big"
     if s and s[0] in "><!=@":
         if s[0] == "<":
@@ -73,450 +79,388 @@ def fmt_prim(fmt: bytes | str) -> Optional[Tuple[int, str]]:
     return STRUCT_CODES[s], order
 
 
+def tag_of_term(t: Term) -> Optional[int]:
+    if t[0] == "call":
+        for k in t[3]:
+            if isinstance(k, tuple) and k and k[0] == "#":
+                return k[1][1]
+    return None
+
+
+def read_tags(t: Any) -> List[int]:
+    return [tag_of_term(x) for x in subterms(t) if x[0] == "call" and tag_of_term(x) is not None]  # type: ignore
+
+
 class Extractor:
-    def __init__(self, repo: Repo):
+    def __init__(self, repo: Repo, walker: Optional[Walker] = None):
         self.repo = repo
+        self.w = walker or Walker(repo, 0)
         self.codecs: Dict[str, Codec] = {}
         base = SER + "Serializable"
         repo.cls(base)
         for q in repo.subclasses(base):
             self.codecs[q] = self._extract(repo.classes[q])
 
-    # ------------------------------------------------------------------ helpers
-    def _resolves_to(self, node: ast.AST, fi: FuncInfo, qual: str) -> bool:
-        r = self.repo.resolve_name_node(fi.module, node, fi)
-        return bool(r and r[1] == qual)
-
-    def _fold(self, node: ast.AST, fi: FuncInfo) -> Any:
-        return self.repo.fold(node, fi.module, fi, {})
-
-    def _try_fold(self, node: ast.AST, fi: FuncInfo) -> Tuple[bool, Any]:
-        try:
-            return True, self._fold(node, fi)
-        except AnalysisError:
-            return False, None
-
-    def _cls_of(self, node: ast.AST, fi: FuncInfo) -> Optional[str]:
-        r = self.repo.resolve_name_node(fi.module, node, fi)
-        if r and r[0] == "cls":
-            return r[1]
-        return None
-
-    def _self_attr(self, node: ast.AST, selfname: str) -> Optional[str]:
-        if isinstance(node, ast.Attribute) and isinstance(node.value, ast.Name) and node.value.id == selfname:
-            return node.attr
-        return None
-
     # ------------------------------------------------------------------ constructor
     def _ctor(self, c: Codec) -> None:
         mi = self.repo.find_method(c.q, "__init__")
         if mi is None or not mi.params:
             return
-        selfname = mi.params[0]
         c.ctor_params = mi.params[1:]
-        for st in ast.walk(mi.node):
-            tgt = val = None
-            if isinstance(st, ast.Assign) and len(st.targets) == 1:
-                tgt, val = st.targets[0], st.value
-            elif isinstance(st, ast.AnnAssign) and st.value is not None:
-                tgt, val = st.target, st.value
-            a = self._self_attr(tgt, selfname) if tgt is not None else None
-            if a is None:
-                continue
-            if isinstance(val, ast.Name) and val.id in mi.params:
-                c.ctor[val.id] = a
-            else:
-                ok, v = self._try_fold(val, mi)
-                if ok:
-                    c.ctor_consts[a] = v
+        s = self.w.summary(mi.qualname, 0)
+        selfv = ("v", mi.params[0])
+        for e in s.events:
+            if e.kind == "store" and e.term[0] == "a" and e.term[1] == selfv and e.value is not None:
+                a = e.term[2]
+                v = e.value
+                if v[0] == "v" and v[1] in mi.params:
+                    c.ctor[v[1]] = a
+                elif v[0] == "c":
+                    c.ctor_consts[a] = v[1]
 
     # ------------------------------------------------------------------ writer
-    def _write_arg(self, c: Codec, arg: ast.AST, fi: FuncInfo, selfname: str, pending_len: List[Tuple[Any, str]]) -> Optional[Prim]:
-        a = self._self_attr(arg, selfname)
-        if a is not None:
-            if pending_len and pending_len[-1][1] == a:
-                w, _ = pending_len.pop()
-                return ("lp", w, a)
-            return ("raw", None, a)
-        if isinstance(arg, ast.Attribute) and arg.attr == "packed":
-            a2 = self._self_attr(arg.value, selfname)
-            if a2 is not None:
-                return ("ip16", a2)
-        ok, v = self._try_fold(arg, fi)
-        if ok and isinstance(v, bytes):
-            return ("const", v)
-        if isinstance(arg, ast.Call):
-            d = dotted(arg.func)
-            # struct.pack(FMT, X)
-            if d == "struct.pack" and len(arg.args) == 2:
-                okf, fmt = self._try_fold(arg.args[0], fi)
-                fp = fmt_prim(fmt) if okf and isinstance(fmt, (bytes, str)) else None
-                if fp is None:
-                    return None
-                return self._int_prim(c, arg.args[1], fp[0], fp[1], fi, selfname, pending_len)
-            # X.to_bytes(n, 'big')
-            if isinstance(arg.func, ast.Attribute) and arg.func.attr == "to_bytes":
-                kw = {k.arg: k.value for k in arg.keywords}
-                ln = kw.get("length", arg.args[0] if arg.args else None)
-                bo = kw.get("byteorder", arg.args[1] if len(arg.args) > 1 else None)
-                sg = kw.get("signed")
-                okl, lnv = self._try_fold(ln, fi) if ln is not None else (False, None)
-                okb, bov = self._try_fold(bo, fi) if bo is not None else (True, "big")
-                oks, sgv = self._try_fold(sg, fi) if sg is not None else (True, False)
-                if okl and okb and oks and not sgv and isinstance(lnv, int):
-                    return self._int_prim(c, arg.func.value, lnv, bov, fi, selfname, pending_len)
-        return None
-
-    def _int_prim(self, c: Codec, x: ast.AST, width: int, order: str, fi: FuncInfo, selfname: str, pending_len: List[Tuple[Any, str]]) -> Optional[Prim]:
-        a = self._self_attr(x, selfname)
-        if a is not None:
-            if a in c.ctor_consts and a not in c.ctor.values() and isinstance(c.ctor_consts[a], int):
-                try:
-                    return ("const", c.ctor_consts[a].to_bytes(width, order))
-                except OverflowError:
-                    return None
-            return ("uint", width, order, a)
-        if isinstance(x, ast.Call) and isinstance(x.func, ast.Name) and x.func.id == "len" and len(x.args) == 1:
-            a2 = self._self_attr(x.args[0], selfname)
-            if a2 is not None:
-                pending_len.append((width, a2))
-                return ("lenmark",)
-        ok, v = self._try_fold(x, fi)
-        if ok and isinstance(v, int):
-            try:
-                return ("const", v.to_bytes(width, order))
-            except OverflowError:
-                return None
-        return None
-
     def _writer(self, c: Codec, fi: FuncInfo) -> None:
         c.writer_fi = fi
-        if len(fi.params) < 2:
-            c.problems.append("writer signature")
-            return
-        selfname, f = fi.params[0], fi.params[1]
-        seq: List[Prim] = []
-        pending_len: List[Tuple[Any, str]] = []
         body = func_body(fi)
         if len(body) == 1 and isinstance(body[0], ast.Raise):
             c.writer = None
             return
-        for st in body:
-            p = self._writer_stmt(c, st, fi, selfname, f, pending_len)
-            if p is None:
-                c.problems.append("%s:%d writer statement outside the idiom set: %s" % (fi.module.path, st.lineno, ast.unparse(st)[:70]))
+        if len(fi.params) < 2:
+            c.problems.append("writer signature")
+            return
+        s = self.w.summary(fi.qualname, 0)
+        selfv, f = ("v", fi.params[0]), ("v", fi.params[1])
+        seq: List[Prim] = []
+        pending: Optional[Tuple[Any, str]] = None     # (width, attr) of a length just written
+        for u in s.unknown:
+            c.problems.append("writer: " + u)
+
+        def attr_of(t: Term) -> Optional[str]:
+            return t[2] if t[0] == "a" and t[1] == selfv else None
+
+        def int_prim(x: Term, width: int, order: str) -> Optional[Prim]:
+            nonlocal pending
+            a = attr_of(x)
+            if a is not None:
+                if a in c.ctor_consts and a not in c.ctor.values() and isinstance(c.ctor_consts[a], int) and not isinstance(c.ctor_consts[a], bool):
+                    try:
+                        return ("const", c.ctor_consts[a].to_bytes(width, order))
+                    except OverflowError:
+                        return None
+                return ("uint", width, order, a)
+            if x[0] == "call" and x[1] == ("g", "builtin:len") and len(x[2]) == 1 and attr_of(x[2][0]) is not None:
+                pending = (width, attr_of(x[2][0]))  # type: ignore
+                return ("lenmark",)
+            if is_int_const(x):
+                try:
+                    return ("const", x[1].to_bytes(width, order))
+                except OverflowError:
+                    return None
+            return None
+
+        def classify_write(x: Term, ev: Event) -> Optional[Prim]:
+            nonlocal pending
+            a = attr_of(x)
+            if a is not None:
+                if pending is not None and pending[1] == a and pending[0] != "vlq":
+                    w_, _ = pending
+                    pending = None
+                    return ("lp", w_, a)
+                return ("raw", None, a)
+            if x[0] == "a" and x[2] == "packed" and attr_of(x[1]) is not None:
+                return ("ip16", attr_of(x[1]))
+            if x[0] == "c" and isinstance(x[1], bytes):
+                return ("const", x[1])
+            if x[0] == "call" and x[1] == ("g", "ext:struct.pack") and len(x[2]) == 2 and x[2][0][0] == "c":
+                fp = fmt_prim(x[2][0][1])
+                if fp is None:
+                    return None
+                return int_prim(x[2][1], fp[0], fp[1])
+            if x[0] == "call" and x[1][0] == "a" and x[1][2] == "to_bytes" and len(x[2]) == 3:
+                ln, bo, sg = x[2]
+                if is_int_const(ln) and bo[0] == "c" and sg == C(False):
+                    return int_prim(x[1][1], ln[1], bo[1])
+            if x[0] == "e" and x[2] == "elem" and attr_of(x[1]) is not None and ev.loops and pending == ("vlq", attr_of(x[1])):
+                pending = None
+                return ("rawlist", None, attr_of(x[1]))
+            return None
+
+        for e in s.events:
+            if e.chain or e.kind != "call" or e.parts is None:
                 continue
-            seq.extend(x for x in p if x != ("lenmark",))
-        if pending_len:
-            c.problems.append("%s: length prefix without payload for %s" % (fi.qualname, pending_len))
+            fn, args = e.parts[0], list(e.term[2]) if e.term[0] == "call" else list(e.parts[1])
+            p: Optional[Prim] = None
+            handled = False
+            if fn == ("a", f, "write") and len(args) == 1:
+                handled = True
+                p = classify_write(args[0], e)
+            elif SER + "stream_serialize_vlq" in e.targets and len(args) == 2 and args[0] == f:
+                handled = True
+                a = attr_of(args[1])
+                if a is not None:
+                    p = ("vlq", a)
+                elif args[1][0] == "call" and args[1][1] == ("g", "builtin:len") and len(args[1][2]) == 1 and attr_of(args[1][2][0]) is not None:
+                    pending = ("vlq", attr_of(args[1][2][0]))  # type: ignore
+                    p = ("lenmark",)
+            elif SER + "stream_serialize_list" in e.targets and len(args) == 2 and args[0] == f:
+                handled = True
+                a = attr_of(args[1])
+                p = ("list", None, a) if a is not None else None
+            elif fn[0] == "a" and fn[2] == "stream_serialize" and args == [f]:
+                handled = True
+                a = attr_of(fn[1])
+                p = ("nested", None, a) if a is not None else None
+            if not handled:
+                continue
+            if e.pc and any(cj.prov not in ("raise-surv",) for cj in e.pc):
+                c.problems.append("%s:%d conditional write %s" % (fi.module.path, e.line, show(e.term)[:60]))
+                continue
+            if p is None:
+                c.problems.append("%s:%d writer statement outside the idiom set: %s" % (fi.module.path, e.line, show(e.term)[:70]))
+                continue
+            if e.loops and p[0] != "rawlist":
+                c.problems.append("%s:%d write inside a loop: %s" % (fi.module.path, e.line, show(e.term)[:60]))
+                continue
+            if p != ("lenmark",):
+                seq.append(p)
+        if pending is not None:
+            c.problems.append("%s: length prefix without payload for %s" % (fi.qualname, pending))
         c.writer = seq
 
-    def _writer_stmt(self, c: Codec, st: ast.stmt, fi: FuncInfo, selfname: str, f: str, pending_len: List[Tuple[Any, str]]) -> Optional[List[Prim]]:
-        if isinstance(st, ast.Assert) or isinstance(st, ast.Pass):
-            return []
-        if isinstance(st, ast.Expr) and isinstance(st.value, ast.Constant):
-            return []
-        if isinstance(st, ast.Expr) and isinstance(st.value, ast.Call):
-            call = st.value
-            fn = call.func
-            # f.write(X)
-            if isinstance(fn, ast.Attribute) and fn.attr == "write" and isinstance(fn.value, ast.Name) and fn.value.id == f and len(call.args) == 1:
-                p = self._write_arg(c, call.args[0], fi, selfname, pending_len)
-                return None if p is None else [p]
-            # stream_serialize_vlq(f, X) / stream_serialize_list(f, X)
-            if self._resolves_to(fn, fi, SER + "stream_serialize_vlq") and len(call.args) == 2:
-                x = call.args[1]
-                a = self._self_attr(x, selfname)
-                if a is not None:
-                    return [("vlq", a)]
-                if isinstance(x, ast.Call) and isinstance(x.func, ast.Name) and x.func.id == "len" and len(x.args) == 1:
-                    a2 = self._self_attr(x.args[0], selfname)
-                    if a2 is not None:
-                        pending_len.append(("vlq", a2))
-                        return [("lenmark",)]
-                return None
-            if self._resolves_to(fn, fi, SER + "stream_serialize_list") and len(call.args) == 2:
-                a = self._self_attr(call.args[1], selfname)
-                return None if a is None else [("list", None, a)]
-            # self.x.stream_serialize(f)
-            if isinstance(fn, ast.Attribute) and fn.attr == "stream_serialize" and len(call.args) == 1:
-                a = self._self_attr(fn.value, selfname)
-                return None if a is None else [("nested", None, a)]
-            return None
-        if isinstance(st, ast.For) and isinstance(st.target, ast.Name) and not st.orelse:
-            a = self._self_attr(st.iter, selfname)
-            if a is not None and len(st.body) == 1 and isinstance(st.body[0], ast.Expr) and isinstance(st.body[0].value, ast.Call):
-                call = st.body[0].value
-                fn = call.func
-                if isinstance(fn, ast.Attribute) and fn.attr == "write" and isinstance(fn.value, ast.Name) and fn.value.id == f \
-                        and len(call.args) == 1 and isinstance(call.args[0], ast.Name) and call.args[0].id == st.target.id:
-                    if pending_len and pending_len[-1] == ("vlq", a):
-                        pending_len.pop()
-                        return [("rawlist", None, a)]
-        return None
-
     # ------------------------------------------------------------------ reader
-    def _safe_read(self, node: ast.AST, fi: FuncInfo, f: str) -> Optional[Any]:
-        """N (int, or an ast node for a dynamic length) if node is safe_read(f, N)."""
-        if isinstance(node, ast.Call) and self._resolves_to(node.func, fi, SER + "safe_read") and len(node.args) == 2 \
-                and isinstance(node.args[0], ast.Name) and node.args[0].id == f:
-            ok, v = self._try_fold(node.args[1], fi)
-            return v if ok and isinstance(v, int) else node.args[1]
-        return None
-
-    def _read_expr(self, c: Codec, val: ast.AST, fi: FuncInfo, f: str, env: Dict[str, Any]) -> Optional[Prim]:
-        """primitive read by an expression (field slot filled later)"""
-        n = self._safe_read(val, fi, f)
-        if n is not None:
-            if isinstance(n, int):
-                return ("raw", n, None)
-            if isinstance(n, ast.Name) and n.id in env and env[n.id][0] in ("uint",):
-                return ("lp*", n.id)
-            return None
-        if isinstance(val, ast.Call):
-            fn = val.func
-            d = dotted(fn)
-            if self._resolves_to(fn, fi, SER + "stream_deserialize_vlq") and len(val.args) == 1:
-                return ("vlq", None)
-            if self._resolves_to(fn, fi, SER + "stream_deserialize_list") and len(val.args) == 2:
-                t = self._cls_of(val.args[1], fi)
-                return None if t is None else ("list", t, None)
-            if isinstance(fn, ast.Attribute) and fn.attr == "stream_deserialize" and len(val.args) == 1:
-                t = self._cls_of(fn.value, fi)
-                if t is not None:
-                    return ("nested", t, None)
-                if isinstance(fn.value, ast.Name) and fn.value.id in env and env[fn.value.id][0] == "tablelookup":
-                    return ("bytag", env[fn.value.id][1], None)
+    def _classify_read(self, c: Codec, t: Term, fvar: Term, reads: Dict[int, Event]) -> Optional[Tuple[Prim, int]]:
+        """primitive produced by a constructor-argument term, and the index of the (first) stream read it consumes"""
+        k = tag_of_term(t)
+        if t[0] == "call" and k is not None:
+            fn, args = t[1], t[2]
+            if fn == ("g", SER + "safe_read") and len(args) == 2 and args[0] == fvar:
+                if is_int_const(args[1]):
+                    return ("raw", args[1][1], None), k
+                # length-prefixed payload: safe_read(f, <uint read just before>)
+                inner = self._classify_read(c, args[1], fvar, reads)
+                if inner is not None and inner[0][0] == "uint":
+                    return ("lp", inner[0][1], None), inner[1]
                 return None
-            if d and d.split(".")[-1] == "IPv6Address" and len(val.args) == 1 and self._safe_read(val.args[0], fi, f) == 16:
-                return ("ip16", None)
-            if d == "int.from_bytes" and val.args:
-                n = self._safe_read(val.args[0], fi, f)
-                kw = {k.arg: k.value for k in val.keywords}
-                bo = kw.get("byteorder", val.args[1] if len(val.args) > 1 else None)
-                okb, bov = self._try_fold(bo, fi) if bo is not None else (True, "big")
-                sg = kw.get("signed")
-                oks, sgv = self._try_fold(sg, fi) if sg is not None else (True, False)
-                if isinstance(n, int) and okb and oks and not sgv:
-                    return ("uint", n, bov, None)
-        return None
-
-    def _unpack(self, val: ast.AST, fi: FuncInfo, f: str) -> Optional[Prim]:
-        if isinstance(val, ast.Call) and dotted(val.func) == "struct.unpack" and len(val.args) == 2:
-            okf, fmt = self._try_fold(val.args[0], fi)
-            fp = fmt_prim(fmt) if okf and isinstance(fmt, (bytes, str)) else None
-            n = self._safe_read(val.args[1], fi, f)
-            if fp is not None and isinstance(n, int):
-                if fp[0] != n:
-                    return ("badwidth", fp[0], n)
-                return ("uint", fp[0], fp[1], None)
+            if fn == ("g", SER + "stream_deserialize_vlq") and args == (fvar,):
+                return ("vlq", None), k
+            if fn == ("g", SER + "stream_deserialize_list") and len(args) == 2 and args[0] == fvar and args[1][0] == "g" and args[1][1] in self.repo.classes:
+                return ("list", args[1][1], None), k
+            if fn[0] == "a" and fn[2] == "stream_deserialize" and args == (fvar,):
+                recv = fn[1]
+                if recv[0] == "g" and recv[1] in self.repo.classes:
+                    return ("nested", recv[1], None), k
+                if recv[0] == "s" and recv[1][0] == "g":      # TABLE[tag field]
+                    inner = self._classify_read(c, recv[2], fvar, reads)
+                    if inner is not None:
+                        return ("bytag", inner[1], None), k
+                return None
+            return None
+        # struct.unpack(FMT, safe_read(f, n))[0]
+        if t[0] == "s" and t[2] == C(0) and t[1][0] == "call" and t[1][1] == ("g", "ext:struct.unpack") and len(t[1][2]) == 2 and t[1][2][0][0] == "c":
+            fp = fmt_prim(t[1][2][0][1])
+            inner = self._classify_read(c, t[1][2][1], fvar, reads)
+            if fp is not None and inner is not None and inner[0][0] == "raw":
+                if inner[0][1] != fp[0]:
+                    c.problems.append("struct format width %d but %d bytes read" % (fp[0], inner[0][1]))
+                    return None
+                return ("uint", fp[0], fp[1], None), inner[1]
+            return None
+        if t[0] == "call" and t[1] == ("g", "builtin:int.from_bytes") and len(t[2]) == 3 and t[2][1][0] == "c" and t[2][2] == C(False):
+            inner = self._classify_read(c, t[2][0], fvar, reads)
+            if inner is not None and inner[0][0] == "raw":
+                return ("uint", inner[0][1], t[2][1][1], None), inner[1]
+            return None
+        if t[0] == "call" and t[1][0] == "g" and t[1][1].split(".")[-1] == "IPv6Address" and len(t[2]) == 1:
+            inner = self._classify_read(c, t[2][0], fvar, reads)
+            if inner is not None and inner[0][:2] == ("raw", 16):
+                return ("ip16", None), inner[1]
+            return None
+        # [safe_read(f, n) for _ in range(vlq(f))]
+        if t[0] == "comp" and t[1] == "list" and len(t[3]) == 1 and not t[3][0][1]:
+            dom = t[3][0][0]
+            if dom[0] == "call" and dom[1] == ("g", "builtin:range") and len(dom[2]) == 1:
+                cnt = self._classify_read(c, dom[2][0], fvar, reads)
+                el = self._classify_read(c, t[2], fvar, reads)
+                if cnt is not None and cnt[0][0] == "vlq" and el is not None and el[0][0] == "raw":
+                    return ("rawlist", el[0][1], None), cnt[1]
+            return None
         return None
 
     def _reader(self, c: Codec, fi: FuncInfo) -> None:
         c.reader_fi = fi
-        if len(fi.params) < 2:
-            c.problems.append("reader signature")
-            return
-        clsname, f = fi.params[0], fi.params[1]
         body = func_body(fi)
         if len(body) == 1 and isinstance(body[0], ast.Raise):
             c.reader = None
             return
-        seq: List[Prim] = []
-        names: List[Optional[str]] = []      # local name bound to each read
-        env: Dict[str, Any] = {}
-        tells: Dict[str, int] = {}           # name -> number of reads done when f.tell() was taken
-        span: Dict[str, Any] = {}
-        # raw .read( sites
-        for n in ast.walk(fi.node):
-            if isinstance(n, ast.Call) and isinstance(n.func, ast.Attribute) and n.func.attr == "read" \
-                    and isinstance(n.func.value, ast.Name) and n.func.value.id == f:
-                c.raw_reads.append((n.lineno, ast.unparse(n)))
-
-        def add(p: Prim, name: Optional[str]) -> None:
-            seq.append(p)
-            names.append(name)
-
-        i = 0
-        while i < len(body):
-            st = body[i]
-            i += 1
-            handled = False
-            # tag dispatch:  t = safe_read(f, N); if t == TAG: return Sub.stream_deserialize(f) ...; raise
-            if isinstance(st, ast.Assign) and len(st.targets) == 1 and isinstance(st.targets[0], ast.Name):
-                tname = st.targets[0].id
-                n = self._safe_read(st.value, fi, f)
-                rest = body[i:]
-                if isinstance(n, int) and rest and all(self._is_dispatch_if(x, tname, fi, f) for x in rest[:-1]) and len(rest) >= 2 \
-                        and isinstance(rest[-1], ast.Raise):
-                    d = Dispatch()
-                    d.width = n
-                    d.line = st.lineno
-                    for x in rest[:-1]:
-                        tag, sub = self._is_dispatch_if(x, tname, fi, f)  # type: ignore
-                        d.table.append((tag, sub))
-                    d.fallthrough_raises = True
-                    c.dispatch = d
-                    c.reader = []
+        if len(fi.params) < 2:
+            c.problems.append("reader signature")
+            return
+        s = self.w.summary(fi.qualname, 0)
+        clsv, fvar = ("v", fi.params[0]), ("v", fi.params[1])
+        for u in s.unknown:
+            c.problems.append("reader: " + u)
+        reads: Dict[int, Event] = {}
+        for e in s.events:
+            if e.kind == "call" and not e.chain:
+                k = tag_of_term(e.term)
+                if k is not None:
+                    reads[k] = e
+                    if e.parts and e.parts[0] == ("a", fvar, "read"):
+                        c.raw_reads.append((e.line, show(untag(e.term))))
+        from .match import decision_table, function_value
+        # ---- tag dispatch: every return is `Sub.stream_deserialize(f)` under `tag == CONST` (sequential ifs or an if/elif chain)
+        all_rets = s.returns()
+        is_disp = lambda r: r.term[0] == "call" and r.term[1][0] == "a" and r.term[1][2] == "stream_deserialize" and r.term[1][1] != clsv  # noqa
+        rets = [r for r in all_rets if is_disp(r)]
+        stray = [r for r in all_rets if not is_disp(r)]
+        if rets and (not stray or len(rets) >= 2 or any(cj.prov == "branch" for r in rets for cj in r.pc)):
+            # the class may be chosen first (`message_class = X` in an if/elif chain) and decoded once: expand the conditional
+            pairs: List[Tuple[frozenset, Term]] = []
+            for r in rets:
+                base = frozenset(x for cj in r.pc if cj.prov in ("branch", "ret-surv") for x in conjuncts(cj.term))
+                tab = decision_table(r.term)
+                if tab is None:
+                    c.problems.append("%s: dispatch too branchy" % fi.qualname)
                     return
-                if isinstance(n, int) and rest and any(self._is_dispatch_if(x, tname, fi, f) for x in rest):
-                    d = Dispatch()
-                    d.width = n
-                    d.line = st.lineno
-                    for x in rest:
-                        r = self._is_dispatch_if(x, tname, fi, f)
-                        if r:
-                            d.table.append(r)
-                    d.fallthrough_raises = isinstance(rest[-1], ast.Raise)
-                    c.dispatch = d
-                    c.reader = []
+                for conds, v in tab:
+                    pairs.append((base | conds, v))
+            d = Dispatch()
+            d.line = fi.node.lineno  # type: ignore
+            tagread: Optional[Term] = None
+            ok = True
+            for conds, v in pairs:
+                recv = v[1][1]
+                if not (recv[0] == "g" and recv[1] in self.repo.classes):
+                    if recv[0] == "opaque" or recv[0] == "lv":
+                        continue
+                    ok = False
+                    break
+                pick = None
+                for x in conds:
+                    if x[0] == "cmp" and x[1] == "==":
+                        for a_, b_ in ((x[2], x[3]), (x[3], x[2])):
+                            if a_[0] == "c" and isinstance(a_[1], bytes) and tag_of_term(b_) is not None:
+                                pick = (a_[1], b_)
+                if pick is None or (tagread is not None and tagread != pick[1]):
+                    ok = False
+                    break
+                tagread = pick[1]
+                d.table.append((pick[0], recv[1]))
+            if ok and tagread is not None and d.table:
+                cl = self._classify_read(c, tagread, fvar, reads)
+                if cl is not None and cl[0][0] == "raw":
+                    d.width = cl[0][1]
+                    # unknown tags raise: a raise that is not guarded by a positive tag test
+                    fall = [e for e in s.raises() if not any(x[0] == "cmp" and x[1] == "==" and tagread in (x[2], x[3])
+                                                             for cj in e.pc for x in conjuncts(cj.term))]
+                    uncond = [r for r in rets if not any(x[0] == "cmp" and x[1] == "==" and tagread in (x[2], x[3])
+                                                         for cj in r.pc for x in conjuncts(cj.term))
+                              and not any(cn and any(y[0] == "cmp" and y[1] == "==" for y in cn) for cn, _ in (decision_table(r.term) or []))]
+                    d.fallthrough_raises = bool(fall) and not uncond and not stray
                     if not d.fallthrough_raises:
-                        c.problems.append("%s:%d tag dispatch does not end in an unconditional raise" % (fi.module.path, st.lineno))
+                        c.problems.append("%s:%d tag dispatch does not end in an unconditional raise" % (fi.module.path, d.line))
+                    c.dispatch = d
+                    c.reader = []
                     return
-            if isinstance(st, (ast.Assign, ast.AnnAssign)):
-                tgt = st.targets[0] if isinstance(st, ast.Assign) and len(st.targets) == 1 else (st.target if isinstance(st, ast.AnnAssign) else None)
-                val = st.value
-                if tgt is not None and val is not None:
-                    # x = f.tell()
-                    if isinstance(tgt, ast.Name) and isinstance(val, ast.Call) and isinstance(val.func, ast.Attribute) and val.func.attr == "tell" \
-                            and isinstance(val.func.value, ast.Name) and val.func.value.id == f:
-                        tells[tgt.id] = len(seq)
-                        handled = True
-                    # (x,) = struct.unpack(FMT, safe_read(f, n))
-                    elif isinstance(tgt, ast.Tuple) and len(tgt.elts) == 1 and isinstance(tgt.elts[0], ast.Name):
-                        p = self._unpack(val, fi, f)
-                        if p is not None and p[0] == "uint":
-                            env[tgt.elts[0].id] = p
-                            add(p, tgt.elts[0].id)
-                            handled = True
-                        elif p is not None:
-                            c.problems.append("%s:%d struct format width %d but %d bytes read" % (fi.module.path, st.lineno, p[1], p[2]))
-                            handled = True
-                    elif isinstance(tgt, ast.Name):
-                        # x = []   (accumulator for a raw list)
-                        if isinstance(val, ast.List) and not val.elts:
-                            env[tgt.id] = ("emptylist",)
-                            handled = True
-                        # clz = TABLE[tagfield]
-                        elif isinstance(val, ast.Subscript) and isinstance(val.slice, ast.Name) and val.slice.id in env:
-                            r = self.repo.resolve_name_node(fi.module, val.value, fi)
-                            if r and r[0] == "const":
-                                env[tgt.id] = ("tablelookup", val.slice.id, r[1])
-                                handled = True
-                        # hash = sha256d(f.read(end - start))
-                        elif isinstance(val, ast.Call) and self._resolves_to(val.func, fi, "skepticoin.hash.sha256d") and len(val.args) == 1:
-                            a0 = val.args[0]
-                            if isinstance(a0, ast.Call) and isinstance(a0.func, ast.Attribute) and a0.func.attr == "read" and len(a0.args) == 1 \
-                                    and isinstance(a0.args[0], ast.BinOp) and isinstance(a0.args[0].op, ast.Sub) \
-                                    and isinstance(a0.args[0].left, ast.Name) and isinstance(a0.args[0].right, ast.Name):
-                                span.update({"name": tgt.id, "end": a0.args[0].left.id, "start": a0.args[0].right.id, "line": st.lineno,
-                                             "reads_before": len(seq)})
-                                handled = True
-                        else:
-                            p = self._read_expr(c, val, fi, f, env)
-                            if p is not None:
-                                if p[0] == "lp*":
-                                    # payload of a length prefix read just before
-                                    ln = p[1]
-                                    idx = max(k for k, nm in enumerate(names) if nm == ln)
-                                    w = seq[idx][1]
-                                    seq[idx] = ("lp", w, None)
-                                    names[idx] = tgt.id
-                                else:
-                                    add(p, tgt.id)
-                                env[tgt.id] = p
-                                handled = True
-            elif isinstance(st, ast.Expr) and isinstance(st.value, ast.Call):
-                call = st.value
-                n = self._safe_read(call, fi, f)
-                if isinstance(n, int):
-                    add(("ignored", n), None)
-                    handled = True
-                elif isinstance(call.func, ast.Attribute) and call.func.attr == "seek" and isinstance(call.func.value, ast.Name) \
-                        and call.func.value.id == f and len(call.args) == 1 and isinstance(call.args[0], ast.Name):
-                    span["seek"] = call.args[0].id
-                    span["seek_reads"] = len(seq)
-                    handled = True
-            elif isinstance(st, ast.Expr) and isinstance(st.value, ast.Constant):
-                handled = True
-            elif isinstance(st, ast.If) and not st.orelse and len(st.body) == 1 and isinstance(st.body[0], ast.Raise):
-                # if safe_read(f, n) != CONST: raise
-                t = st.test
-                if isinstance(t, ast.Compare) and len(t.ops) == 1 and isinstance(t.ops[0], ast.NotEq):
-                    for a_, b_ in ((t.left, t.comparators[0]), (t.comparators[0], t.left)):
-                        n = self._safe_read(a_, fi, f)
-                        ok, v = self._try_fold(b_, fi)
-                        if isinstance(n, int) and ok and isinstance(v, bytes) and len(v) == n:
-                            add(("const", v), None)
-                            handled = True
-                            break
-            elif isinstance(st, ast.For) and not st.orelse and isinstance(st.iter, ast.Call) and isinstance(st.iter.func, ast.Name) \
-                    and st.iter.func.id == "range" and len(st.iter.args) == 1 and isinstance(st.iter.args[0], ast.Name):
-                cnt = st.iter.args[0].id
-                if env.get(cnt, (None,))[0] == "vlq" and len(st.body) == 1 and isinstance(st.body[0], ast.Expr) \
-                        and isinstance(st.body[0].value, ast.Call):
-                    call = st.body[0].value
-                    if isinstance(call.func, ast.Attribute) and call.func.attr == "append" and isinstance(call.func.value, ast.Name) \
-                            and env.get(call.func.value.id) == ("emptylist",) and len(call.args) == 1:
-                        n = self._safe_read(call.args[0], fi, f)
-                        if isinstance(n, int) and n >= 1:
-                            idx = max(k for k, nm in enumerate(names) if nm == cnt)
-                            seq[idx] = ("rawlist", n, None)
-                            names[idx] = call.func.value.id
-                            handled = True
-            elif isinstance(st, ast.Return) and isinstance(st.value, ast.Call) and isinstance(st.value.func, ast.Name) \
-                    and st.value.func.id == clsname:
-                call = st.value
-                argnames: List[Optional[str]] = []
-                params = c.ctor_params
-                bind: Dict[str, str] = {}
-                for k, a_ in enumerate(call.args):
-                    if isinstance(a_, ast.Name) and k < len(params):
-                        bind[a_.id] = params[k]
-                for kw in call.keywords:
-                    if kw.arg and isinstance(kw.value, ast.Name):
-                        bind[kw.value.id] = kw.arg
-                c.reader_args = [bind.get(nm) if nm else None for nm in names]
-                if span and span.get("name") in bind:
-                    span["param"] = bind[span["name"]]
-                handled = True
-            if not handled:
-                c.problems.append("%s:%d reader statement outside the idiom set: %s" % (fi.module.path, st.lineno, ast.unparse(st)[:70]))
-        if not c.reader_args:
-            c.reader_args = [None] * len(seq)
-        # reads bound to a name that never reaches the constructor are lenient (value unused)
-        final: List[Prim] = []
-        for p, nm, arg in zip(seq, names, c.reader_args):
-            if p[0] in ("uint", "raw") and arg is None and nm is not None:
-                final.append(("lenient", p[1], nm))
+            c.problems.append("%s: dispatching decoder outside the idiom set" % fi.qualname)
+            return
+        val = function_value(s)
+        if val is None:
+            c.problems.append("%s: decoder never returns" % fi.qualname)
+            return
+        rows = decision_table(val)
+        if rows is None or len(rows) != 1:
+            c.problems.append("%s: decoder returns different objects on different paths" % fi.qualname)
+            return
+        value = rows[0][1]
+        if not (value[0] == "call" and value[1] == clsv):
+            c.problems.append("%s:%d reader does not return cls(...): %s" % (fi.module.path, fi.node.lineno, show(value)[:60]))  # type: ignore
+            return
+        params = c.ctor_params
+        bind: List[Tuple[str, Term]] = []
+        for i, a in enumerate(value[2]):
+            if i < len(params):
+                bind.append((params[i], a))
+        for k_, a in value[3]:
+            if k_ != "#":
+                bind.append((k_, a))
+        items: List[Tuple[int, Prim, Optional[str]]] = []
+        used: Set[int] = set()
+        for pname, a in bind:
+            # id computed from the raw span: sha256d(f.read(end - start)) after f.seek(start)
+            if a[0] == "call" and a[1] == ("g", "skepticoin.hash.sha256d") and len(a[2]) == 1 and tag_of_term(a[2][0]) is not None \
+                    and a[2][0][1] == ("a", fvar, "read"):
+                self._span(c, pname, a[2][0], s, reads, fvar)
+                used.update(read_tags(a))
+                continue
+            cl = self._classify_read(c, a, fvar, reads)
+            if cl is None:
+                if a[0] == "c":
+                    continue
+                c.problems.append("%s:%d constructor argument %s outside the idiom set: %s" % (fi.module.path, fi.node.lineno, pname, show(untag(a))[:70]))  # type: ignore
+                continue
+            items.append((cl[1], cl[0], pname))
+            used.update(read_tags(a))
+        # reads that do not reach the constructor: strictly compared constants, or ignored bytes
+        for k, e in sorted(reads.items()):
+            if k in used:
+                continue
+            t = e.term
+            if e.parts and e.parts[0][0] == "a" and e.parts[0][1] == fvar and e.parts[0][2] in ("tell", "seek", "read"):
+                continue
+            cl = self._classify_read(c, t, fvar, reads)
+            if cl is None or cl[0][0] != "raw":
+                c.problems.append("%s:%d stream read whose value is unused: %s" % (fi.module.path, e.line, show(untag(t))[:60]))
+                continue
+            n = cl[0][1]
+            const = None
+            for r in s.raises():
+                for cj in r.pc:
+                    for x in conjuncts(cj.term):
+                        if x[0] == "cmp" and x[1] == "!=" and t in (x[2], x[3]):
+                            o = x[3] if x[2] == t else x[2]
+                            if o[0] == "c" and isinstance(o[1], bytes) and len(o[1]) == n and cj.prov == "branch":
+                                const = o[1]
+            # also the unpacked form: struct.unpack('B', read)[0] != 0
+            if const is not None:
+                items.append((k, ("const", const), None))
             else:
-                final.append(p)
-        c.reader = final
-        if span:
-            span["tells"] = tells
-            span["total_reads"] = len(seq)
-            c.span = span
+                # is the value used anywhere at all (e.g. compared loosely)?
+                used_elsewhere = any(t in list(subterms(x.term)) for cj_e in s.events for x in cj_e.pc)
+                if used_elsewhere:
+                    c.problems.append("%s:%d read compared in a way that is not a strict constant check: %s" % (fi.module.path, e.line, show(untag(t))[:60]))
+                items.append((k, ("ignored", n), None))
+        items.sort(key=lambda it: it[0])
+        c.reader = [p for _, p, _ in items]
+        c.reader_args = [a for _, _, a in items]
 
-    def _is_dispatch_if(self, st: ast.stmt, tname: str, fi: FuncInfo, f: str) -> Optional[Tuple[bytes, str]]:
-        if not (isinstance(st, ast.If) and not st.orelse and len(st.body) == 1 and isinstance(st.body[0], ast.Return)):
-            return None
-        t = st.test
-        if not (isinstance(t, ast.Compare) and len(t.ops) == 1 and isinstance(t.ops[0], ast.Eq)):
-            return None
-        a_, b_ = t.left, t.comparators[0]
-        if isinstance(b_, ast.Name) and b_.id == tname:
-            a_, b_ = b_, a_
-        if not (isinstance(a_, ast.Name) and a_.id == tname):
-            return None
-        ok, tag = self._try_fold(b_, fi)
-        rv = st.body[0].value
-        if not (ok and isinstance(tag, bytes) and isinstance(rv, ast.Call) and isinstance(rv.func, ast.Attribute)
-                and rv.func.attr == "stream_deserialize" and len(rv.args) == 1 and isinstance(rv.args[0], ast.Name) and rv.args[0].id == f):
-            return None
-        sub = self._cls_of(rv.func.value, fi)
-        if sub is None:
-            return None
-        return tag, sub
+    def _span(self, c: Codec, pname: str, readcall: Term, s: Summary, reads: Dict[int, Event], fvar: Term) -> None:
+        """readcall = f.read(end - start)#k ; start/end must be f.tell() values; a seek(start) precedes the read"""
+        k = tag_of_term(readcall)
+        info: Dict[str, Any] = {"param": pname, "line": reads[k].line if k in reads else 0, "ok": False}
+        arg = readcall[2][0] if readcall[2] else None
+        if arg is not None:
+            atoms, const = lin_parts(arg)
+            pos = [a for a, v in atoms.items() if v == 1]
+            neg = [a for a, v in atoms.items() if v == -1]
+            if len(pos) == 1 and len(neg) == 1 and const == 0 and len(atoms) == 2:
+                end, start = pos[0], neg[0]
+                ke, ks = tag_of_term(end), tag_of_term(start)
+                is_tell = lambda t: t[0] == "call" and t[1] == ("a", fvar, "tell")  # noqa
+                seeks = [kk for kk, e in reads.items() if e.parts and e.parts[0] == ("a", fvar, "seek") and e.term[2] == (start,)]
+                if ke is not None and ks is not None and is_tell(end) and is_tell(start) and seeks:
+                    ksk = max(x for x in seeks if x < k) if any(x < k for x in seeks) else None
+                    consuming = [kk for kk, e in reads.items()
+                                 if not (e.parts and e.parts[0][0] == "a" and e.parts[0][1] == fvar and e.parts[0][2] in ("tell", "seek", "read"))]
+                    info.update({
+                        "start_tag": ks, "end_tag": ke, "seek_tag": ksk, "read_tag": k,
+                        "reads_before_start": len([x for x in consuming if x < ks]),
+                        "reads_in_span": len([x for x in consuming if ks < x < ke]),
+                        "reads_after_end": len([x for x in consuming if x > ke]),
+                        "span_read_tags": [x for x in consuming if ks < x < ke],
+                        "ok": ksk is not None and ke < ksk < k and not [x for x in consuming if ke < x < k],
+                    })
+        c.span = info
 
     # ------------------------------------------------------------------ per class
     def _extract(self, ci: ClassInfo) -> Codec:
@@ -524,10 +468,16 @@ class Extractor:
         self._ctor(c)
         w = ci.methods.get("stream_serialize")
         r = ci.methods.get("stream_deserialize")
-        if w is not None:
-            self._writer(c, w)
-        if r is not None:
-            self._reader(c, r)
+        try:
+            if w is not None:
+                self._writer(c, w)
+        except AnalysisError as e:
+            c.problems.append("writer: %s" % e)
+        try:
+            if r is not None:
+                self._reader(c, r)
+        except AnalysisError as e:
+            c.problems.append("reader: %s" % e)
         return c
 
     # ------------------------------------------------------------------ queries
